@@ -178,15 +178,21 @@ def one(ctx, i):
                 break
     ctx.count('second-theta')
     # generated_mass bookkeeping of the iterator
-    if theta > 0 and rng.random() < 0.5:
-        it = coal.sfs.get_mutation_configs(theta=theta)
-        acc = 0.0
-        for _ in range(6):
-            cfg_, p = next(it)
-            acc += p
-            if not C.close(coal.sfs.generated_mass, acc, 1e-12, 1e-15):
-                ctx.violation('generated-mass', cfg=cfg, theta=theta, expected=acc, observed=coal.sfs.generated_mass)
-                break
+    # (for every theta >= 0 and both spectra: at theta = 0 the empty configuration carries all the mass)
+    if theta == 0 or rng.random() < 0.5:
+        for kind, dist in (('u', coal.sfs), ('f', coal.fsfs)):
+            it = dist.get_mutation_configs(theta=theta)
+            acc = 0.0
+            for _ in range(6):
+                try:
+                    cfg_, p = next(it)
+                except StopIteration:
+                    break
+                acc += p
+                if not C.close(dist.generated_mass, acc, 1e-12, 1e-15):
+                    ctx.violation('generated-mass', cfg=cfg, theta=theta, kind=kind, expected=acc, observed=float(dist.generated_mass))
+                    break
+            ctx.count(f'generated-mass:{"theta0" if theta == 0 else "theta>0"}')
 
 
 def run(ctx):
